@@ -12,3 +12,12 @@ def run(ctx):
     ctx.rule("C11-e", "normalisation = I_tr·Γ(dod)/Π_e Γ(w_e)·π^(D·L/2) with I_tr = J(full graph), dod = Σ w − L·D/2")
     guarded_clause(ctx, "C11-e", "preprocessing::TropicalSubgraphTable::generate_from_tropical", "normalisation", lambda: normalisation_clause(ctx, "C11-e"))
     guarded_clause(ctx, "C11-e", "preprocessing::TropicalGraph::from_graph", "graph-dod", lambda: graph_dod_clause(ctx, "C11-e", topology=True))
+    # I_tr = J(full) is built from ω(g), which is built from the loop-number and spanning routines (restated from C03-e / C03-f)
+    from .kernels import run_c03_loops, run_c03_flags
+    run_c03_flags(ctx, "C11-f")
+    run_c03_loops(ctx, "C11-f", soft=True)
+    # … and the u, v the monomial divides by are the statement's U and V (restated from C08 / C09; decided there, repeated here because the
+    # statement's right-hand side names them)
+    from .restate import run_restated
+    run_restated(ctx, [("C08", {"C08-a": "U = det L with L[a,b] = Σ x s s", "C08-b": "result.u is that determinant"}),
+                       ("C09", {"C09-a": "u vectors u_l = Σ_e x_e s[e,l] p_e", "C09-b": "v = Σ x(m²+p²) − uᵀL⁻¹u"})])
